@@ -1,3 +1,4 @@
 import Audit.Tool
 import Uds.Props.C15
+import Uds.Props.C15Hist
 #audit Uds.Props.C15
